@@ -112,6 +112,18 @@ def knn (s : Space) (k : Nat) : List (List (Rat × Nat)) :=
     let (cx, cy, cz) := s.cdim
     knnLoop s k pid cid (minDistToFace s.cells[cid]! s.pos[pid]!) (cx + cy + cz + 2) 0 []
 
+/-- decidable form of "the point lies in the box `[loc, loc + width]` of the cell" -/
+def inBoxB (c : GCell) (p : Q3) : Bool :=
+  decide (c.loc.x ≤ p.x) && decide (p.x ≤ c.loc.x + c.width.x) && decide (c.loc.y ≤ p.y) && decide (p.y ≤ c.loc.y + c.width.y) &&
+  decide (c.loc.z ≤ p.z) && decide (p.z ≤ c.loc.z + c.width.z)
+
+/-- run-time certificate of a grid: cell widths are non-negative, every particle registered in a cell lies in the box of
+that cell, and the cells hold every particle exactly once -/
+def gridOK (s : Space) : Bool :=
+  s.cells.toList.all (fun c => decide (0 ≤ c.width.x) && decide (0 ≤ c.width.y) && decide (0 ≤ c.width.z) &&
+    c.parts.all (fun q => inBoxB c s.pos[q]!)) &&
+  ((s.cells.toList.flatMap (·.parts)).mergeSort (· ≤ ·) == List.range s.pos.size)
+
 /-- brute force specification -/
 def knnSpec (pos : Array Q3) (k : Nat) : List (List Rat) :=
   (List.range pos.size).map fun pid =>
